@@ -159,6 +159,23 @@ def _eval_sp(item):
             j = found[0]
             if not canon.typed_eq(canon.plain(j.statepoint()), sp) or not canon.typed_eq(canon.plain(dict(found[0].cached_statepoint)), sp):
                 bad("fresh-session-statepoint", f"fresh session reads {j.statepoint()!r}", sp, repr(j.statepoint()))
+        # every read route on its own fresh session (the first access decides which reader is used)
+        for route in ("cached_statepoint", "check", "find_jobs"):
+            pf = signac.Project(d)
+            try:
+                if route == "cached_statepoint":
+                    got_sp = canon.plain(dict(pf.open_job(id=want_id).cached_statepoint))
+                elif route == "check":
+                    pf.check()
+                    got_sp = sp
+                else:
+                    hits = [j for j in pf.find_jobs({"__no_such_key__": {"$exists": False}})]
+                    got_sp = canon.plain(hits[0].statepoint()) if len(hits) == 1 else f"{len(hits)} jobs"
+            except Exception as e:  # noqa
+                got_sp = f"{type(e).__name__}: {str(e)[:120]}"
+            if not canon.typed_eq(got_sp, sp):
+                bad("fresh-session-statepoint", f"fresh session, first access through {route}: {str(got_sp)[:200]}", None, str(got_sp)[:300],
+                    route=route)
         p3 = signac.Project(d)
         if p3.open_job(copy.deepcopy(sp)) not in p3 or p3.open_job(id=want_id).id != want_id:
             bad("fresh-session-membership", "membership / open by full id fails in a fresh session")
